@@ -29,6 +29,9 @@ def main():
         if args[i] == "--checks":
             checks = args[i + 1].split(",")
             i += 2
+        elif args[i] == "--own":
+            checks = "own"
+            i += 1
         elif args[i] == "--tier":
             tier = args[i + 1]
             i += 2
@@ -45,7 +48,7 @@ def main():
     for seed in seeds:
         patch = os.path.join(HERE, "seeded", seed, "patch.diff")
         prop = seed.split("-")[0]
-        todo = checks or DEFAULT.get(prop, [prop])
+        todo = [prop] if checks == "own" else (checks or DEFAULT.get(prop, [prop]))
         r = subprocess.run(["git", "-C", "/repo", "apply", patch], capture_output=True, text=True)
         if r.returncode:
             print(f"{seed}: patch does not apply: {r.stderr.strip()[:200]}")
